@@ -319,7 +319,9 @@ def mkvalue(i, gen, op):
         return d
     if op == "E":
         return (d, {})
-    return (d, {"c": {"i": i, "deep": {"z": [i]}}, "l": [i, [i]], "t": "v%d" % i})
+    # mutable objects also INSIDE tuples (lena itself builds such contexts: context.variable.combine, context.zip)
+    return (d, {"c": {"i": i, "deep": {"z": [i]}}, "l": [i, [i]], "t": "v%d" % i,
+                "variable": {"name": "v", "combine": ({"name": "x%d" % i}, {"name": "y", "range": [0, i]})}})
 
 
 def _call(el, method, on_yield=None):
